@@ -188,7 +188,7 @@ theorem flatMap_push_perm (cover : Cover K) (s : Nat) (e : DN K) :
 
 /-- pushing an entry at a scale above `cur` (possibly raising `max_scale`) adds exactly that entry -/
 theorem hi_push {cover : Cover K} {cur M M' s : Nat} (e : DN K) (hs : cur < s) (hsM : s ≤ M') (hM : M ≤ M')
-    (hempty : ∀ t, M < t → cover t = []) : (hi (cover.push s e) cur M').Perm (hi cover cur M ++ [e]) := by
+    (hempty : ∀ t, M < t → cur < t → cover t = []) : (hi (cover.push s e) cur M').Perm (hi cover cur M ++ [e]) := by
   have hsame : hi cover cur M' = hi cover cur M := by
     unfold hi
     have hsplit : List.range' (cur + 1) (M' - cur) =
@@ -198,9 +198,8 @@ theorem hi_push {cover : Cover K} {cur M M' s : Nat} (e : DN K) (hs : cur < s) (
     have : (List.range' (cur + 1 + (M - cur)) (M' - cur - (M - cur))).flatMap cover = [] := by
       rw [flatMap_eq_nil_iff]
       intro t ht
-      apply hempty
       have := (mem_range'_1.1 ht).1
-      omega
+      apply hempty <;> omega
     rw [this, append_nil]
   rw [← hsame]
   unfold hi
@@ -209,7 +208,8 @@ theorem hi_push {cover : Cover K} {cur M M' s : Nat} (e : DN K) (hs : cur < s) (
   · rw [mem_range'_1]
     omega
 
-theorem hi_mono_max {cover : Cover K} {cur M M' : Nat} (hM : M ≤ M') (hempty : ∀ t, M < t → cover t = []) :
+theorem hi_mono_max {cover : Cover K} {cur M M' : Nat} (hM : M ≤ M')
+    (hempty : ∀ t, M < t → cur < t → cover t = []) :
     hi cover cur M' = hi cover cur M := by
   unfold hi
   have hsplit : List.range' (cur + 1) (M' - cur) =
@@ -219,9 +219,8 @@ theorem hi_mono_max {cover : Cover K} {cur M M' : Nat} (hM : M ≤ M') (hempty :
   have : (List.range' (cur + 1 + (M - cur)) (M' - cur - (M - cur))).flatMap cover = [] := by
     rw [flatMap_eq_nil_iff]
     intro t ht
-    apply hempty
     have := (mem_range'_1.1 ht).1
-    omega
+    apply hempty <;> omega
   rw [this, append_nil]
 
 end TapkeeVerif.CoverTree
